@@ -248,6 +248,21 @@ pub fn record(rec: &mut Recorder, seed: u64, thorough: bool) {
             force(None);
             scan_run(rec, Some(Arm::Avx2), &cells, &ranks, &prof, [1usize, 2, 3, 256][kind % 4], kind);
             if kind % 2 == 0 { scan_run(rec, None, &cells, &ranks, &prof, [256usize, 1, 2][kind % 3], kind / 2); }
+            {
+                // the consensus word planted in the sequence and the threshold set to the matrix's own maximum score
+                // (the largest byte image, 255, must still pass the byte pre-filter although unscale(255) may round below it)
+                let mut planted = ranks.clone();
+                if planted.len() >= m {
+                    let at = (kind * 7) % (planted.len() - m + 1);
+                    for j in 0..m {
+                        let row = &cells[j];
+                        let best = (0..4).max_by_key(|&k| row[k]).unwrap();
+                        planted[at + j] = best;
+                    }
+                    scan_run(rec, if kind % 2 == 0 { Some(Arm::Avx2) } else { None }, &cells, &planted, &prof, [256usize, 1, 3][kind % 3], 0);
+                    rec.class("threshold_at_matrix_maximum");
+                }
+            }
             if l >= 40 { scan_rethreshold(rec, Some(Arm::Avx2), &cells, &ranks, &prof, [1usize, 2, 1, 3][kind % 4], kind); }
             if m >= 2 && m <= 20 {
                 let l = 32 * r.gen_range(2..=5usize) + [0usize, 0, 3, 17][kind % 4];
